@@ -38,7 +38,11 @@ AM == Proj(A, TName(TM))
 FsO == {Bin(op, AM, Bin("*", M, Num(3))) : op \in {"+", "-", "XOR"}} \cup {Bin(op, Bin("*", M, Num(3)), AM) : op \in {"-", "XOR"}}
        \cup {Bin(op, AM, M) : op \in {"+", "-"}} \cup {Bin("%", Bin(op, AM, Bin("+", M, Num(1))), Num(17)) : op \in {"+", "-"}}
        \cup {Bin("-", Num(50), Bin("*", M, Num(3))), Bin("-", Bin("-", Num(50), M), AM), Bin("+", AM, Bin("-", Num(9), M))}
-All == Early \cup {P("order", f, <<>>, <<InA>>) : f \in FsO} \cup {P("const", f, <<>>, <<>>) : f \in Fs1} \cup {P("input", f, <<>>, <<InA>>) : f \in FsA} \cup {P("cond", f, <<>>, <<>>) : f \in FsC}
+\* plain registers: an unconditional write of a value that does NOT depend on the cell (not C04's subject; used where "any program" is
+\* quantified - determinism, optimisation - next to the self-referential ones, which they resemble node for node)
+FsR == {Bin("+", A, Num(1)), Bin("*", Bin("+", A, Num(1)), Num(2)), Bin("*", A, Num(2)), Bin("%", Bin("+", A, Num(1)), Num(10))}
+InAM == SIn("a", TM, 3)
+All == {P("register", f, <<>>, <<InAM>>) : f \in FsR} \cup {P("register", Bin("+", Proj(A, TName(TM)), Num(1)), <<>>, <<InA>>)} \cup Early \cup {P("order", f, <<>>, <<InA>>) : f \in FsO} \cup {P("const", f, <<>>, <<>>) : f \in Fs1} \cup {P("input", f, <<>>, <<InA>>) : f \in FsA} \cup {P("cond", f, <<>>, <<>>) : f \in FsC}
    \cup {P("readers", f, Extra2, <<>>) : f \in {Bin("+", M, Num(1)), Bin("%", Bin("+", M, Num(1)), Num(10)), CondE(Bin("<", M, Num(10)), Bin("+", M, Num(1)))}}
    \cup {P("readers", f, Extra3, <<InA>>) : f \in {Bin("+", M, A), Bin("AND", Bin("+", Bin("*", M, Num(5)), Num(3)), Num(255))}}
 ASSUME PrintT(<<"NPROGS", Cardinality(All)>>)
